@@ -385,6 +385,15 @@ def with_prefix(w, prefix):
     return w
 
 
+def weak_seed(depth):
+    """Fock space weakly entangled with its polarization: sqrt(1-eps)|0,H> + sqrt(eps)|2,V>, eps = 2e-5."""
+    wk = W3({"A.f": 0, "A.f.dim": 4, "A.p": "H"})
+    wk["prefix"] = [["kraus", "env:A", ["A.f", "A.p"], "weak", {"eps": 2e-5}]]
+    wk2 = W3({"A.f": 0, "A.f.dim": 4, "A.p": "H"}, contraction=False)
+    wk2["prefix"] = [["kraus", "env:A", ["A.f", "A.p"], "weak", {"eps": 2e-5}], ["ce_combine", "h1", ["A.f", "B.p"]]]
+    return [("W3/weakly-entangled-env", wk, depth), ("W3/weakly-entangled-ps", wk2, depth)]
+
+
 def rich_seeds(depth):
     """Seed worlds whose prefix already builds the layouts single actions cannot reach quickly."""
     ps3m = W3({"A.f": 1, "A.p": "R", "B.p": "V"})
@@ -430,7 +439,7 @@ def get(name, tier, seed):
         return {**base, "prop": "C01", "worlds": (SEEDS_W3[:2] + SEEDS_W1[:2] if q else SEEDS_W3 + SEEDS_W1) + rich_seeds(1 if q else 2),
                 "core": core, "probes": probes_single_ops(seed, full=not q), "depth": 2 if q else 3}
     if name == "C02":
-        return {**base, "prop": "C02", "worlds": (SEEDS_W3[:2] + SEEDS_W1[:2] if q else SEEDS_W3 + SEEDS_W1) + rich_seeds(1 if q else 2),
+        return {**base, "prop": "C02", "worlds": (SEEDS_W3[:2] + SEEDS_W1[:2] if q else SEEDS_W3 + SEEDS_W1) + rich_seeds(1 if q else 2) + weak_seed(0 if q else 1),
                 "core": core, "probes": union(probes_structural(seed), probes_identity_requests(seed)),
                 "depth": 2 if q else 3}
     if name == "C03":
@@ -456,7 +465,7 @@ def get(name, tier, seed):
     if name == "C07":
         wide = union(probes_single_ops(seed, full=False), probes_kraus(seed), probes_structural(seed, 2),
                      probes_measure(seed, 1), probes_resize(seed))
-        return {**base, "prop": "C07", "worlds": (SEEDS_W3[:2] if q else SEEDS_W3 + SEEDS_W1) + rich_seeds(1 if q else 2),
+        return {**base, "prop": "C07", "worlds": (SEEDS_W3[:2] if q else SEEDS_W3 + SEEDS_W1) + rich_seeds(1 if q else 2) + weak_seed(0 if q else 1),
                 "core": core, "probes": wide, "depth": 2 if q else 3}
     if name == "C09":
         w9 = (rich_seeds(1)[:1] + rich_seeds(0)[1:] + [SEEDS_W1[1]]) if q else SEEDS_W3 + SEEDS_W1 + rich_seeds(2)
@@ -464,7 +473,7 @@ def get(name, tier, seed):
                 "core": core, "probes": probes_povm(seed, ("diag", "dil3"), ("dil3",)) if q else probes_povm(seed),
                 "depth": 2 if q else 3}
     if name == "C10":
-        return {**base, "prop": "C10", "worlds": (SEEDS_W3[:2] + SEEDS_W1[1:] if q else SEEDS_W3 + SEEDS_W1) + rich_seeds(1 if q else 2),
+        return {**base, "prop": "C10", "worlds": (SEEDS_W3[:2] + SEEDS_W1[1:] if q else SEEDS_W3 + SEEDS_W1) + rich_seeds(1 if q else 2) + weak_seed(0 if q else 1),
                 "core": core, "probes": probes_resize(seed), "depth": 2 if q else 3}
     if name == "C20":
         wide = union(probes_single_ops(seed, full=False), probes_composite_ops(seed), probes_kraus(seed),
@@ -601,9 +610,13 @@ def get(name, tier, seed):
         nearly["prefix"] = [["kraus", "state", ["A.p"], "dephase", {"p": 1e-7 / 2}]]
         nearly2 = W3({"A.f": 1, "A.p": "R"})
         nearly2["prefix"] = [["kraus", "state", ["A.p"], "dephase", {"p": 1e-3 / 2}]]
-        w8 = SEEDS_W3[:2] + SEEDS_W1[1:2] + [("W3/nearly-pure-1e-7", nearly, 1), ("W3/nearly-pure-1e-3", nearly2, 1)] + rich_seeds(1)[1:]
+        nearly3 = W3({"A.f": 1, "A.p": "R"})       # purity deficit 5e-6: above the documented 1e-6, must stay a matrix
+        nearly3["prefix"] = [["kraus", "state", ["A.p"], "dephase", {"p": 2.5e-6}]]
+        nearly4 = W1({"A.f": 1, "A.p": "L"}, contraction=False)
+        nearly4["prefix"] = [["kraus", "state", ["A.p"], "ampdamp", {"g": 1.2e-5}]]
+        w8 = SEEDS_W3[:2] + SEEDS_W1[1:2] + [("W3/nearly-pure-1e-7", nearly, 1), ("W3/nearly-pure-1e-3", nearly2, 1), ("W3/nearly-pure-5e-6", nearly3, 1), ("W1/nearly-pure-ampdamp-1.2e-5", nearly4, 1)] + rich_seeds(1)[1:]
         if not q:
-            w8 = SEEDS_W3 + SEEDS_W1 + [("W3/nearly-pure-1e-7", nearly, 2), ("W3/nearly-pure-1e-3", nearly2, 2)] + rich_seeds(2)
+            w8 = SEEDS_W3 + SEEDS_W1 + [("W3/nearly-pure-1e-7", nearly, 2), ("W3/nearly-pure-1e-3", nearly2, 2), ("W3/nearly-pure-5e-6", nearly3, 2), ("W1/nearly-pure-ampdamp-1.2e-5", nearly4, 2)] + rich_seeds(2)
         return {**base, "prop": "C08", "worlds": w8, "core": core, "probes": probes8, "depth": 2 if q else 3, "twin": "c08"}
     if name == "C18":
         def calls18(m, w, o):
@@ -627,6 +640,10 @@ def get(name, tier, seed):
                     acts.append(["op", "ce:" + h, list(t), "CX", None])
                     acts.append(["kraus", "ce:" + h, list(t), "dil2", None])
                     acts.append(["povm", "ce:" + h, list(t), "proj", False, True])
+                for t in itertools.permutations(F, 2):
+                    acts.append(["kraus", "ce:" + h, list(t), "dil2", None])
+                    acts.append(["povm", "ce:" + h, list(t), "proj", False, True])
+                    acts.append(["op", "ce:" + h, list(t), "XFF", None])
                 for f in F:
                     for p_ in P:
                         acts.append(["measure", "ce:" + h, [f, p_], True, False])
@@ -670,7 +687,14 @@ def get(name, tier, seed):
         E_["twin_init"] = {"A.f": 0, "B.f": 1, "C.f": 2, "A.p": "H", "B.p": "V", "C.p": "R", **dims3}
         E2 = W4({"A.f": 1, "B.f": 1, "C.f": 1, "A.p": "R", "B.p": "R", "C.p": "R", **dims3})
         E2["twin_init"] = {"A.f": 0, "B.f": 1, "C.f": 2, "A.p": "H", "B.p": "V", "C.p": "R", **dims3}
-        return {**base, "prop": "C18", "worlds": [("W4/all-equal-0H", E_), ("W4/all-equal-1R", E2)], "core": core18,
+        # two composites that are merged by an action: membership must not depend on values
+        EM = {"envs": ["A", "B", "C"], "custom": {}, "handles": {"h1": ["A"], "h2": ["B", "C"]}, "init": dict(dims3),
+              "contraction": True, "D": 4, "twin_init": {"A.f": 0, "B.f": 1, "C.f": 2, "A.p": "H", "B.p": "V", "C.p": "R", **dims3},
+              "prefix": [["expand", "state", ["B.f"]], ["ce_new", "h3", ["h1", "h2"]]]}
+        EM2 = dict(EM)
+        EM2["prefix"] = [["ce_new", "h3", ["h2", "h1"]]]
+        return {**base, "prop": "C18", "worlds": [("W4/all-equal-0H", E_), ("W4/all-equal-1R", E2), ("W4/merged-equal", EM, 1),
+                                                  ("W4/merged-equal-labels", EM2, 1)], "core": core18,
                 "probes": calls18, "depth": 1 if q else 2, "twin": "c18"}
     if name == "C17":
         from .faults import fault_menu
@@ -684,6 +708,6 @@ def get(name, tier, seed):
             if F:
                 acts.append(["measure", "state", [F[-1]], False, True])
             return acts
-        return {**base, "prop": "C17", "worlds": (SEEDS_W3[:2] + SEEDS_W1[1:2] if q else SEEDS_W3 + SEEDS_W1) + rich_seeds(1 if q else 2),
+        return {**base, "prop": "C17", "worlds": (quick_w3(1) + [SEEDS_W3[1]] * 0 + SEEDS_W1[1:2] if q else SEEDS_W3 + SEEDS_W1) + rich_seeds(1 if q else 2),
                 "core": core17, "probes": fault_menu(seed), "depth": 2 if q else 3, "faults": True}
     raise KeyError(name)
